@@ -12,6 +12,7 @@ import (
 	"os"
 	"path/filepath"
 	"sort"
+	"time"
 
 	"github.com/fluhus/biostuff/formats/bed"
 	"github.com/fluhus/biostuff/formats/fasta"
@@ -248,6 +249,7 @@ func init() {
 			{Name: "streams", QShards: 2, TShards: 8, Run: c18Streams_},
 			{Name: "memory", TShards: 4, Run: c18Memory},
 			{Name: "faulty", QShards: 2, TShards: 8, Run: c18Faulty},
+			{Name: "bigfiles", QShards: 4, TShards: 6, StallSec: 90, Run: c18BigFiles},
 		},
 	})
 	register(&Property{
@@ -263,6 +265,7 @@ func init() {
 			{Name: "shapes", QShards: 2, TShards: 8, Run: c19Shapes},
 			{Name: "random", TShards: 4, Run: c19Random},
 			{Name: "deep", Run: c19Deep},
+			{Name: "recross", QShards: 3, TShards: 8, Run: c19Recross},
 			{Name: "readers", Race: true, QShards: 2, TShards: 4, Run: c19Readers},
 			{Name: "wide", TShards: 4, Run: c19Wide},
 			{Name: "parallel", Race: true, Run: treeParallel},
@@ -844,6 +847,169 @@ func c19Deep(c *Ctx) {
 	}
 }
 
+// armsTree: a spine of `spine` nodes whose last node has `arms` children, each
+// the top of a chain of armLen nodes (inner nodes but for the last). The depth
+// of the traversal's cursor passes spine..spine+armLen once per arm, so any
+// threshold in that range (a stack that is grown, spilled, compacted or
+// segmented there) is crossed `arms` times in both directions — a single chain
+// crosses it once. With spine = 1 the arms hang from the root.
+func armsTree(spine, arms, armLen int) (*newick.Node, int) {
+	root, cnt := chainTree(spine, 0)
+	end := root
+	for len(end.Children) > 0 {
+		end = end.Children[0]
+	}
+	for a := 0; a < arms; a++ {
+		arm, n := chainTree(armLen, 0)
+		end.Children = append(end.Children, arm)
+		cnt += n
+	}
+	return root, cnt
+}
+
+// c19Recross: trees in which the depth of the traversal crosses one level
+// several times: short arms at the end of a spine whose length is next to a
+// power of two (2^4 … 2^20, ± 2) or a round decimal number, and long arms
+// hanging from the root or from the middle of a spine.
+func c19Recross(c *Ctx) {
+	type shape struct{ spine, arms, armLen int }
+	var shapes []shape
+	maxE := c.N(17, 22)
+	for e := 4; e <= maxE; e++ {
+		for off := -2; off <= 2; off++ {
+			shapes = append(shapes, shape{1<<e + off, 3, 6})
+		}
+	}
+	for _, d := range []int{1000, 10000, 50000, 100000} {
+		shapes = append(shapes, shape{d - 3, 4, 8})
+	}
+	// long arms: from the root, and from a spine
+	for _, l := range []int{300, 5000, 70000, 1<<17 + 1} {
+		shapes = append(shapes, shape{1, 2, l}, shape{1, 3, l}, shape{l / 2, 2, l})
+	}
+	shapes = append(shapes, shape{1<<20 - 3, 3, 8}, shape{1, 2, 1<<20 + 7})
+	if c.Thorough {
+		shapes = append(shapes, shape{1, 3, 1<<21 + 1}, shape{1 << 20, 2, 1<<20 + 1})
+	}
+	for i, sh := range shapes {
+		c.Case(int64(i), func(k *K) {
+			root, cnt := armsTree(sh.spine, sh.arms, sh.armLen)
+			k.Input("shape", fmt.Sprintf("spine of %d nodes, then %d arms of %d nodes each", sh.spine, sh.arms, sh.armLen))
+			checkTraversals(k, root, true)
+			k.Count("recross_trees", 1)
+			k.Nontrivial([]byte(fmt.Sprint(sh, cnt)))
+		})
+	}
+}
+
+// c18BigFiles: streams and files of thousands of records, stopped early by a
+// SLOW consumer (it pauses for a few milliseconds before it declines — an
+// injected delay, never a deadline): an iterator that decodes ahead of its
+// consumer (a producer goroutine behind a channel, a prefetch buffer) has its
+// look-ahead full at that moment, and has to wind down thousands of records it
+// never delivered. Stops at 0, 1, 2, around 2^10 and 2^11, in the middle and at
+// the end; then a complete run must still deliver everything. A stop that never
+// returns is pinned by the watchdog (this unit's cases take milliseconds).
+func c18BigFiles(c *Ctx) {
+	nrec := c.N(3000, 20000)
+	dir, err := os.MkdirTemp("", "c18-big-")
+	if err != nil {
+		c.Info("skipped", err.Error())
+		return
+	}
+	defer os.RemoveAll(dir)
+	for i, it := range c18Streams {
+		c.Case(int64(i), func(k *K) {
+			r := k.Rand()
+			var x []byte
+			ff := it.format
+			for n := 0; n < nrec; n += 40 {
+				x = append(x, wellFormed(r, ff, 40)...)
+				if ff == "bed" { // one field count per file
+					x = x[:0]
+					var buf bytes.Buffer
+					for j := 0; j < nrec; j++ {
+						genBED(r, 6).Write(&buf)
+					}
+					x = buf.Bytes()
+					break
+				}
+			}
+			path := ""
+			if it.file {
+				path = filepath.Join(dir, fmt.Sprintf("big%d%s", i, codecByName(it.format).ext))
+				data := x
+				if i%4 == 1 {
+					path += ".gz"
+					data = gzipBytes(x, 1)
+				}
+				if os.WriteFile(path, data, 0o644) != nil {
+					k.Count("file_write_failed", 1)
+					return
+				}
+				defer os.Remove(path)
+			}
+			k.Input("iterator", it.name)
+			k.Input("input_bytes", len(x))
+			var full []item
+			it.mk(x, path)(func(v item) bool { full = append(full, v); return len(full) <= len(x)+10 })
+			if len(full) < nrec/2 {
+				k.Failf("big-run-short", "%s: an input of about %d records delivers %d items", it.name, nrec, len(full))
+				return
+			}
+			k.Count("items_"+it.name, int64(len(full)))
+			n := len(full)
+			stops := []int{0, 1, 2, 7, 100, 1022, 1023, 1024, 1025, 2047, 2048, 2049, n / 2, n - 1025, n - 2, n - 1}
+			for si, sp := range stops {
+				if sp < 0 || sp >= n {
+					continue
+				}
+				var seen []item
+				stopped, after := false, 0
+				pause := time.Duration(1+si%4) * time.Millisecond
+				if p := catch(func() {
+					it.mk(x, path)(func(v item) bool {
+						if stopped {
+							after++
+							return false
+						}
+						seen = append(seen, v)
+						if len(seen) == sp+1 {
+							stopped = true
+							time.Sleep(pause) // a consumer that takes its time over the item it stops on
+							return false
+						}
+						if len(seen) == sp { // and over the one before
+							time.Sleep(pause)
+						}
+						return true
+					})
+				}); p != nil {
+					k.Input("stop_at", sp)
+					k.Failf("panic-after-stop", "%s: panic when a slow consumer stops at item %d of %d: %v", it.name, sp, n, p)
+					return
+				}
+				if after > 0 || len(seen) != sp+1 || !sameTrace(seen, full[:sp+1]) {
+					k.Input("stop_at", sp)
+					k.Failf("stopped-run-differs", "%s: a slow consumer stopping at item %d of %d saw %d items (%d callbacks after it declined); they must be the leading items of the uninterrupted run", it.name, sp, n, len(seen), after)
+					return
+				}
+				k.Count("stop_positions", 1)
+				k.Count("slow_consumer_stops", 1)
+				k.Evals(1)
+			}
+			var again []item
+			it.mk(x, path)(func(v item) bool { again = append(again, v); return len(again) <= len(x)+10 })
+			if !sameTrace(again, full) {
+				k.Failf("run-after-stopped-runs-differs", "%s: a complete run made after the stopped runs delivers %d items, the first one %d", it.name, len(again), len(full))
+				return
+			}
+			k.Count("full_runs", 2)
+			k.Nontrivial([]byte(it.name), []byte("bigfiles"))
+		})
+	}
+}
+
 // c18Faulty: early stops on streams whose reader fails (possibly returning the
 // failure together with data): the error may already be latched inside the
 // decoder when the consumer stops on an earlier, good item.
@@ -917,7 +1083,7 @@ func streamOver(name string, rd io.Reader) rawIter {
 func c19Wide(c *Ctx) {
 	fans := []int{255, 256, 257, 1000, 65535, 65536, 65537, 70000}
 	if c.Thorough {
-		fans = append(fans, 127, 128, 129, 4095, 4096, 4097, 32767, 32768, 32769, 131071, 131072, 131073, 1<<20 + 1)
+		fans = append(fans, 127, 128, 129, 4095, 4096, 4097, 32767, 32768, 32769, 131071, 131072, 131073, 1<<20+1)
 	}
 	for i, fan := range fans {
 		for variant := 0; variant < 2; variant++ {
